@@ -24,7 +24,7 @@ OUTSIDE = [
     "bounded-buffer sizes other than the enumerated ones (lfq/ltq/pbq wired with 1 or 2 slots to force overflow; lhq's 96*(level+1)/cores "
     "scaled down through an overlay in the *_small queries)",
     "dispatch clause (__parsec_schedule_vp / next_task / flush_private): the installed module is a recording stub, 2 VPs, rings of <=2; "
-    "the flush of a retained task whose ring had >=2 tasks is the known finding C08-flush-private-stale-ring (excluded class, reported separately)",
+    "the flush of a retained task whose ring had >=2 tasks was the finding C08-flush-private-stale-ring (fixed in /repo by c68133c; the query now covers that class too and guards the fix)",
     "concurrent entry points (Engine S queries *_conc_*): llp with one scheduling slot per thread plus the deterministic drain (R=1), "
     "interfering thread = LIFO pop/push or select; ll with R<=2; fixed scenarios (queue contents, calls, priorities), 2 threads; "
     "module-level interference on llp (select+schedule from a second stream, two concurrent lifo_chain_sorted) is beyond reach "
@@ -327,11 +327,14 @@ MANIFEST = {
          "whose streams can reach every queue, that NULL is only returned when nothing is pending.  Bounded buffers are 1-2 slots so "
          "that the overflow-to-parent paths run.  A separate query runs the real __parsec_schedule_vp / "
          "__parsec_schedule_flush_private of scheduling.c over two VPs with a recording module: every submitted task is handed to the "
-         "module exactly once on a stream of its own VP or retained (one, head of the ring, own VP, free slot only) and flushed once.",
+         "module exactly once on a stream of its own VP or retained (one, head of the ring, own VP, free slot only) and flushed once.  "
+         "Engine S queries (IR-level sequentialization, symbolic yields inside lifo_chain_sorted / lifo_merge_ring / pop) run llp's and "
+         "ll's schedule against a concurrent pop/push/select/schedule on the same queue with the same one-place-per-task oracle.",
  "note": "operations are complete (no interleaving inside schedule/select: containers' own properties); ltq not covered (no verdict "
          "within budget); lfq/pbq queues wired by the harness (their two-barrier flow_init is not executed); spq/lhq distances and "
          "streams enumerated; lhq on one 2-level topology with scaled queue sizes; overlays: typed allocations for struct-hack "
          "arrays, pointer-typed CAS, field-wise 128-bit CAS of the LIFO head, char* priority access; "
-         "known finding C08-flush-private-stale-ring (flush of a retained task from a ring of >=2) is excluded and reported.",
- "technique": "CBMC bounded symbolic execution of the real C units + SAT (cadical); operation histories with symbolic streams/distances/priorities",
+         "finding C08-flush-private-stale-ring (flush of a retained task from a ring of >=2) was found by the schedule_vp query and is fixed (c68133c).",
+ "technique": "CBMC bounded symbolic execution of the real C units + SAT (cadical); operation histories with symbolic streams/distances/priorities; "
+              "Engine S (clang IR -> ll2c sequentialization with symbolic schedules) for the concurrent llp/ll scenarios",
 }
